@@ -38,8 +38,29 @@ def op_branches(fn, mod, cls=None, subject="expr.op", consts=None):
         if not isinstance(n, ast.If):
             continue
         sel = _selector(n.test, mod, cls, subject, consts)
+        body_ = n.body
         if sel is None:
-            continue
+            # the negated spelling of a selector guarding a bail-out (`if op != X: raise ...` followed by the operator's code): the branch
+            # is what runs when the selector holds - the else arm and, when the guarded arm leaves the block, what follows the `if`
+            pos = _negated_selector_test(n.test)
+            sel = _selector(pos, mod, cls, subject, consts) if pos is not None else None
+            if sel is None:
+                continue
+            body_ = list(n.orelse)
+            if n.body and isinstance(n.body[-1], (ast.Return, ast.Raise, ast.Continue, ast.Break)):
+                par_ = getattr(n, "_parent", None)
+                for fld_ in ("body", "orelse", "finalbody"):
+                    sib_ = getattr(par_, fld_, None)
+                    if isinstance(sib_, list) and any(n is x for x in sib_):
+                        idx_ = [i for i, x in enumerate(sib_) if x is n][0]
+                        for s_ in sib_[idx_ + 1:]:
+                            if isinstance(s_, ast.If) and (_selector(s_.test, mod, cls, subject, consts) is not None or
+                                                           (_negated_selector_test(s_.test) is not None and
+                                                            _selector(_negated_selector_test(s_.test), mod, cls, subject, consts) is not None)):
+                                break
+                            body_.append(s_)
+            if not body_:
+                continue
         guards = []
         guard_nodes = []        # (test node, polarity under which this branch runs)
         nested = False
@@ -60,8 +81,18 @@ def op_branches(fn, mod, cls=None, subject="expr.op", consts=None):
             ch, p = p, getattr(p, "_parent", None)
         if nested:
             continue      # a refinement inside another operator branch, not a branch of its own
-        out.append({"kind": sel[0], "ops": sel[1], "node": n, "body": n.body, "guards": [g for g in guards if g], "guard_nodes": guard_nodes})
+        out.append({"kind": sel[0], "ops": sel[1], "node": n, "body": body_, "guards": [g for g in guards if g], "guard_nodes": guard_nodes})
     return out
+
+
+def _negated_selector_test(test):
+    """the positive form of a negated test: not T -> T ; a != b -> a == b ; a not in b -> a in b ; else None"""
+    if isinstance(test, ast.UnaryOp) and isinstance(test.op, ast.Not):
+        return test.operand
+    if isinstance(test, ast.Compare) and len(test.ops) == 1 and isinstance(test.ops[0], (ast.NotEq, ast.NotIn)):
+        op = ast.Eq() if isinstance(test.ops[0], ast.NotEq) else ast.In()
+        return ast.copy_location(ast.Compare(left=test.left, ops=[op], comparators=test.comparators), test)
+    return None
 
 
 def _selector(test, mod, cls, subject, consts):
